@@ -9,7 +9,8 @@
 // subroot ref_counts) at that moment — which the Lean model (Driver/C05Each.lean) validates event by event, and a
 // line `M …` of implementation-side monitors that do not depend on the model.
 //
-// stdin:  each <i|f|r> <T> <seed> <steal@spawn %> <steal@yield %> <n> <id>*n F <k> (<id> <m> <child>*m)*k
+// stdin:  each <i|f|r|d> <T>   (d = input iterator whose category is a tag DERIVED from std::input_iterator_tag)
+//         each <i|f|r> <T> <seed> <steal@spawn %> <steal@yield %> <n> <id>*n F <k> (<id> <m> <child>*m)*k
 //         invoke <n 2..12> <T> <seed> <steal@spawn %> <steal@yield %> <c 0|1: pass a task_group_context>
 // built with -fno-access-control.
 #include "r1_each.h"
@@ -136,6 +137,8 @@ struct Item {
 // iterators over std::vector<Item>: input (single pass), forward
 // ---------------------------------------------------------------------------------------------------------------
 static const void* root_first_addr = nullptr;          // address of for_each_root_task::my_first
+static long g_stream_pos = 0;                          // input categories: how far any copy of the iterator has been advanced
+struct DerivedInputTag : std::input_iterator_tag {};   // a user-defined category derived from the standard one (Boost-style facades): still single pass
 template <typename Tag> struct It {
     typedef Tag iterator_category;
     typedef Item value_type;
@@ -147,6 +150,10 @@ template <typename Tag> struct It {
     It() {}
     It(std::vector<Item>* vv, long kk) : v(vv), k(kk) {}
     Item& operator*() const {
+        if (!quiet && cat == 0 && k < g_stream_pos) {
+            // a single-pass iterator: once ANY copy has been advanced past position k the element at k is gone
+            bad_iter++; problem("single-pass (input) iterator dereferenced at position " + std::to_string(k) + " after the stream had advanced to " + std::to_string(g_stream_pos));
+        }
         if (!quiet) {
             if (k < 0 || k >= long(v->size())) { bad_iter++; problem("iterator dereferenced at position " + std::to_string(k) + " of " + std::to_string(v->size())); static Item dummy(-1); return dummy; }
             if (cat == 0 && this == root_first_addr) ev("deref " + std::to_string(k));
@@ -160,13 +167,16 @@ template <typename Tag> struct It {
             iter_pos = k + 1;
             ev("inc " + std::to_string(k));
         }
-        ++k; return *this;
+        ++k;
+        if (cat == 0 && k > g_stream_pos) g_stream_pos = k;
+        return *this;
     }
     It operator++(int) { It t = *this; ++*this; return t; }
     bool operator==(const It& o) const { return k == o.k; }
     bool operator!=(const It& o) const { return k != o.k; }
 };
 typedef It<std::input_iterator_tag> InIt;
+typedef It<DerivedInputTag> DiIt;
 typedef It<std::forward_iterator_tag> FwIt;
 typedef std::vector<Item>::iterator RaIt;
 
@@ -312,6 +322,7 @@ static void main_frame_run(void (*algo)(std::vector<Item>&), std::vector<Item>& 
 template <typename Iterator> static void run_each(std::vector<Item>& v);
 
 template <> void run_each<InIt>(std::vector<Item>& v) { tbb::task_group_context ctx; tbb::parallel_for_each(InIt(&v, 0), InIt(&v, long(v.size())), Body(), ctx); }
+template <> void run_each<DiIt>(std::vector<Item>& v) { tbb::task_group_context ctx; tbb::parallel_for_each(DiIt(&v, 0), DiIt(&v, long(v.size())), Body(), ctx); }
 template <> void run_each<FwIt>(std::vector<Item>& v) { tbb::task_group_context ctx; tbb::parallel_for_each(FwIt(&v, 0), FwIt(&v, long(v.size())), Body(), ctx); }
 template <> void run_each<RaIt>(std::vector<Item>& v) { tbb::task_group_context ctx; tbb::parallel_for_each(v.begin(), v.end(), Body(), ctx); }
 
@@ -410,8 +421,10 @@ int main() {
         reset_all();
         if (op == "each") {
             std::string c; int T; ull seed; unsigned sp, sy; size_t n;
-            if (!(in >> c >> T >> seed >> sp >> sy >> n) || T < 1 || n > 100000 || (c != "i" && c != "f" && c != "r")) { puts("bad-op"); puts("END"); continue; }
-            cat = c == "i" ? 0 : c == "f" ? 1 : 2;
+            if (!(in >> c >> T >> seed >> sp >> sy >> n) || T < 1 || n > 100000 || (c != "i" && c != "f" && c != "r" && c != "d")) { puts("bad-op"); puts("END"); continue; }
+            const bool derived_tag = c == "d";
+            cat = (c == "i" || c == "d") ? 0 : c == "f" ? 1 : 2;
+            g_stream_pos = 0;
             bool ok = true;
             for (size_t i = 0; i < n; ++i) { int id; if (!(in >> id)) ok = false; input_ids.push_back(id); pos_of[id] = int(i); }
             std::string F; size_t k = 0;
@@ -428,7 +441,8 @@ int main() {
                 for (int id : input_ids) v.emplace_back(id);
                 quiet = false;
                 live0 = items_live;
-                if (cat == 0) each_scenario<InIt, EachTypes<InIt>::iblock_t>(v);
+                if (cat == 0 && derived_tag) each_scenario<DiIt, EachTypes<DiIt>::iblock_t>(v);
+                else if (cat == 0) each_scenario<InIt, EachTypes<InIt>::iblock_t>(v);
                 else if (cat == 1) each_scenario<FwIt, EachTypes<FwIt>::fblock_t>(v);
                 else each_scenario<RaIt, EachTypes<RaIt>::fblock_t>(v);
                 quiet = true;
